@@ -72,6 +72,13 @@ def draw (fixCursor : Bool) (fx : Fixes) (e : Emu) (winW winH : Int) (focused : 
   let calls ← drawCalls e
   .ok ({ e with hasVx := true }, calls, shownCursor fixCursor e focused)
 
+/-- `Draw` as it is now (fcc8f92, F105h): a window without area draws nothing and does not resize
+    the terminal; otherwise `draw`. `guardArea = false` is the code before that commit. -/
+def drawG (guardArea fixCursor : Bool) (fx : Fixes) (e : Emu) (winW winH : Int) (focused : Bool) :
+    M (Emu × List DrawCall × Option (Int × Int)) :=
+  if guardArea && (decide (winW ≤ 0) || decide (winH ≤ 0)) then .ok (e, [], none)
+  else draw fixCursor fx e winW winH focused
+
 /-! ### vaxis.Window -/
 
 structure Win where
